@@ -109,7 +109,7 @@ prop("C15", "packet identifiers non-zero and unique among outstanding requests",
                   "known finding D18 (an identifier carried to another client by a retry handle collides with that client's allocator) is counted (excluded_known) and reported as KNOWN-FINDING; every other collision in those cases is a violation"])
 
 prop("C07", "a request completes only on its own acknowledgement", "exploration",
-     "rapid-generated cases: 1..8 concurrent callers (Publish q1/q2, Subscribe with 1..4 filters and generated SUBACK code "
+     "rapid-generated cases: 1..8 concurrent callers (Publish q1/q2, Subscribe with 1..4 filters - one of them possibly repeating the call's first filter - and generated SUBACK code "
      "vectors, Unsubscribe) blocked against a peer that first collects all requests and then plays a generated script: a "
      "permutation of the real acks (PUBREC, later PUBCOMP for q2) interleaved with foreign items (unused ids of every ack kind, "
      "right id / wrong kind, duplicates of acks already sent, unsolicited CONNACK / PINGRESP), each foreign item followed by a "
